@@ -12,7 +12,7 @@ if [ "$patch" != "-" ]; then
 fi
 rsync -a --exclude .work --exclude .git --exclude replays --exclude evidence /verif/ "$S/verif/"
 export GOFLAGS=-mod=mod GOPROXY=off GOSUMDB=off GOTOOLCHAIN=local
-skiprace=1; for id in "$@"; do case $id in C09|C10|C11|C20) skiprace=0;; esac; done
+skiprace=1; for id in "$@"; do case $id in C02|C09|C10|C11|C20) skiprace=0;; esac; done
 export VERIF_DIR="$S/verif" VERIF_REPO="$S/repo" VERIF_SKIP_RACE_BUILD="${VERIF_SKIP_RACE_BUILD:-$skiprace}"
 if [ "${BASELINE:-1}" = 1 ]; then
   b=$(/verif/baseline.sh "$S/repo" 2>&1 | head -1); echo "baseline: $b"
